@@ -540,15 +540,30 @@ class LRUCache(CacheBase):
 
         super().__init__()
         self.data: dict[CacheKey, LRUCacheNode] = {}
-        self.set_max_size(max_size)
         self.sentinel: LRUCacheNode = LRUCacheNode(None, None)
         self.sentinel.prev = self.sentinel
         self.sentinel.next = self.sentinel
+        self.set_max_size(max_size)
 
     def set_max_size(self, max_size: int) -> None:
-        if max_size < 1:
-            max_size = 1
-        self.max_size = max_size
+        """Set the maximum number of nodes to cache.
+
+        Values less than 1 are treated as 1.  If the cache currently holds
+        more nodes than the new maximum, the least-recently used nodes are
+        removed until it does not.
+
+        :param max_size: The maximum number of nodes to cache.
+        :type max_size: int
+        """
+
+        with self.lock:
+            if max_size < 1:
+                max_size = 1
+            self.max_size = max_size
+            while len(self.data) > self.max_size:
+                gnode = self.sentinel.prev
+                gnode.unlink()
+                del self.data[gnode.key]
 
     def get(self, key: CacheKey) -> Answer | None:
         """Get the answer associated with *key*.
